@@ -8,6 +8,7 @@ from .common import (
     judge_case,
     merge,
     pmap,
+    rekey,
     rnd_conditional,
     s2_bases,
     s2_queries,
@@ -50,11 +51,11 @@ def build_cases(prop, tier, seed, configs=None, weakly=None):
         q2 = 27
     for sig, conds in s2_bases(rng, exhaustive, n2 or 0):
         qs = distinct_queries(s2_queries(rng, exhaustive and q2 is None, q2 or 81))
-        cases.append((sig, texts_of(conds), [split_text(str(q)) for q in qs], cfgs, wk))
+        cases.append((sig, texts_of(rekey(conds, rng)), [split_text(str(q)) for q in qs], cfgs, wk))
     for _ in range(n3):
         sig, conds = s3_base(rng, consts=0.1 if wk else 0.06)
         qs = distinct_queries([rnd_conditional(rng, sig, 2, 0.08) for _ in range(q3)])
-        cases.append((sig, texts_of(conds), [split_text(str(q)) for q in qs], cfgs, wk))
+        cases.append((sig, texts_of(rekey(conds, rng)), [split_text(str(q)) for q in qs], cfgs, wk))
     return cases
 
 
